@@ -6,7 +6,7 @@ git -C /repo diff --quiet || { echo "/repo has uncommitted changes"; exit 2; }
 PROPS="C01 C03 C04 C08 C10 C11 C12 C13 C16 C18 C19"
 for d in seeded/*/; do
   id=$(basename "$d")
-  [ -n "$1" ] && [ "$1" != "$id" ] && continue
+  [ -n "$1" ] && ! [[ "$id" =~ $1 ]] && continue
   git -C /repo apply "/verif/${d}patch.diff" || { echo "$id: patch does not apply"; continue; }
   caught=""
   for c in $PROPS; do
